@@ -14,6 +14,7 @@ mod p_logcrash;
 mod p_resetrace;
 mod p_votetransport;
 mod p_readactor;
+mod p_smckpt;
 mod p_membership;
 mod p_c10;
 mod p_snapxfer;
@@ -73,6 +74,7 @@ fn dispatch(probe: &str, rt: &tokio::runtime::Runtime, case: Value) -> Value {
         "resetrace" => p_resetrace::run(rt, case),
         "vote_round" => p_votetransport::run(rt, case),
         "read_actor" => p_readactor::run(rt, case),
+        "smckpt" => p_smckpt::run(rt, case),
         "commit_apply" => p_apply::run(rt, case),
         "purge_role" => p_purge::role(rt, case),
         "purge_route" => p_purge::route(rt, case),
